@@ -643,6 +643,14 @@ func (g *gen) elabQuant(x *Expr, e *env) (Val, error) {
 	var binds []string
 	var guards []string
 	cur := e
+	// Bound variables of a quantifier nested inside another one get a depth suffix: a pure function such as
+	// inStrings(s, m) binds `k`, and an argument `m` that mentions the caller's own `k` must not be captured.
+	qsuf := ""
+	if g.qdepth > 0 {
+		qsuf = fmt.Sprintf("_d%d", g.qdepth)
+	}
+	g.qdepth++
+	defer func() { g.qdepth-- }()
 	// Absolute-index form: `forall i {s[i]} :: P(i)` over a slice s is emitted as a quantifier over the
 	// absolute array index q (= off(s) + i) with the pattern (select elems(s) q), so that it is instantiated
 	// by reads through any alias of the same backing array (sub-slices with another offset), which the
@@ -657,7 +665,7 @@ func (g *gen) elabQuant(x *Expr, e *env) (Val, error) {
 				if st, ok := a.GoT.Underlying().(*types.Slice); ok {
 					absSlice = &a
 					comp := g.ctx.elemComp(g.ctx.sortOf(st.Elem()))
-					absPat = "(select (select " + g.stGet(e.st, comp) + " (s.ref " + a.T + ")) q_" + x.Binders[0].Name + ")"
+					absPat = "(select (select " + g.stGet(e.st, comp) + " (s.ref " + a.T + ")) q_" + x.Binders[0].Name + qsuf + ")"
 				}
 			}
 		}
@@ -684,9 +692,9 @@ func (g *gen) elabQuant(x *Expr, e *env) (Val, error) {
 			}
 			s, gt = g.ctx.sortOf(mt.Key()), mt.Key()
 			dom, _, _ := g.ctx.mapCompsT(m.GoT)
-			keyGuard = "(and (not (= " + m.T + " 0)) (select (select " + g.stGet(cur.st, dom) + " " + m.T + ") " + "q_" + b.Name + "))"
+			keyGuard = "(and (not (= " + m.T + " 0)) (select (select " + g.stGet(cur.st, dom) + " " + m.T + ") " + "q_" + b.Name + qsuf + "))"
 		}
-		qn := "q_" + b.Name
+		qn := "q_" + b.Name + qsuf
 		binds = append(binds, "("+qn+" "+s+")")
 		bv := qn
 		if absSlice != nil {
